@@ -86,10 +86,10 @@ func (ex *Exec) modifiedIn(li *loopInfo) (cells map[*ssa.Alloc]bool, heaps map[s
 			case *ssa.MakeChan, *ssa.MakeClosure:
 				add("$nextref", SInt)
 			case *ssa.Send, *ssa.Select, *ssa.Go:
+				// a go statement runs nothing in this thread: only the spawn
+				// event is recorded (the goroutine's own effects are covered by
+				// its contract and by the concurrency axioms, DESIGN section 5.6)
 				addTrace()
-				if g, ok := x.(*ssa.Go); ok {
-					ex.callEffects(g.Common(), heaps)
-				}
 			case *ssa.UnOp:
 				if x.Op == token.ARROW {
 					addTrace()
@@ -210,6 +210,7 @@ func (ex *Exec) enterLoop(li *loopInfo) {
 			ex.ghostTy[c.Name] = t
 		}
 	}
+	li.entryState = ex.cur.clone()
 	// 1. invariant holds on entry
 	saved := ex.ghosts
 	ex.ghosts = mergeGhosts(saved, entryGhost)
@@ -257,8 +258,16 @@ func (ex *Exec) enterLoop(li *loopInfo) {
 			preTr[tr] = ex.getHeap(ex.cur, tr, ArrS(SInt, SEvent))
 		}
 	}
+	if heaps["*heap"] {
+		li.havocAll = true
+		delete(heaps, "*heap")
+		ex.havocAll(ex.cur)
+	}
 	var hs []string
 	for h := range heaps {
+		if li.havocAll && !strings.HasPrefix(h, "$") {
+			continue
+		}
 		hs = append(hs, h)
 	}
 	sort.Strings(hs)
@@ -409,6 +418,9 @@ func (ex *Exec) checkHavocComplete(li *loopInfo, st *State) {
 		}
 	}
 	for h, t := range st.heap {
+		if li.havocAll && !strings.HasPrefix(h, "$") {
+			continue
+		}
 		ht, ok := li.headState.heap[h]
 		if !ok {
 			ht = nil
